@@ -336,8 +336,15 @@ func (s *Server) handleGetExport(w http.ResponseWriter, r *http.Request) {
 		return
 	}
 
-	pos, err := db.Export(r.Context(), w)
-	if err != nil {
+	cw := &countingResponseWriter{ResponseWriter: w}
+	pos, err := db.Export(r.Context(), cw)
+	if err != nil && cw.n > 0 {
+		// Part of the database has already been sent with a 200 status. Breaking
+		// the connection is the only way left to tell the client that what it
+		// received is not a usable copy.
+		log.Printf("http: %s %s: error: export aborted: %s", r.Method, r.URL.Path, err)
+		panic(http.ErrAbortHandler)
+	} else if err != nil {
 		Error(w, r, fmt.Errorf("write snapshot: %w", err), http.StatusInternalServerError)
 		return
 	}
@@ -822,6 +829,18 @@ func (s *Server) handleGetEvents(w http.ResponseWriter, r *http.Request) {
 			w.(http.Flusher).Flush()
 		}
 	}
+}
+
+// countingResponseWriter counts the body bytes written to a response.
+type countingResponseWriter struct {
+	http.ResponseWriter
+	n int64
+}
+
+func (w *countingResponseWriter) Write(p []byte) (int, error) {
+	n, err := w.ResponseWriter.Write(p)
+	w.n += int64(n)
+	return n, err
 }
 
 func Error(w http.ResponseWriter, r *http.Request, err error, code int) {
